@@ -35,6 +35,114 @@ fn node(n: &str) -> NodeId {
     NodeId(b)
 }
 
+/// tracker_update <start_epoch> <start_partition> <range_lo> <range_hi> <epochs_per_partition> <next_epoch> <expiry> <kind 0 tx|1 sub> <success>
+/// runs the real System::update_transaction_tracker over a real Track on a one-substate database and reports what was
+/// written: `ok <records> <record partition> <status> <deletes> <deleted partition> <tracker writes> <new start epoch> <new start partition> <returned>`
+fn tracker_update(a: &[&str]) -> String {
+    use radix_common::prelude::*;
+    use radix_engine::blueprints::transaction_tracker::*;
+    use radix_engine::system::system_substates::*;
+    use radix_engine::track::*;
+    use radix_engine_interface::prelude::*;
+    use radix_substate_store_interface::db_key_mapper::*;
+    use radix_substate_store_interface::interface::*;
+    use radix_transactions::model::*;
+
+    struct Db(Vec<(DbPartitionKey, DbSortKey, Vec<u8>)>);
+    impl SubstateDatabase for Db {
+        fn get_raw_substate_by_db_key(&self, pk: &DbPartitionKey, sk: &DbSortKey) -> Option<DbSubstateValue> {
+            self.0.iter().find(|(p, s, _)| p == pk && s == sk).map(|(_, _, v)| v.clone())
+        }
+        fn list_raw_values_from_db_key(
+            &self,
+            pk: &DbPartitionKey,
+            from: Option<&DbSortKey>,
+        ) -> Box<dyn Iterator<Item = PartitionEntry> + '_> {
+            let mut v: Vec<PartitionEntry> = self
+                .0
+                .iter()
+                .filter(|(p, s, _)| p == pk && from.map_or(true, |f| s >= f))
+                .map(|(_, s, v)| (s.clone(), v.clone()))
+                .collect();
+            v.sort_by(|x, y| x.0.cmp(&y.0));
+            Box::new(v.into_iter())
+        }
+    }
+    let p = |i: usize| a[i].parse::<u64>().unwrap();
+    let (se, sp, lo, hi, epp, nxt, e, kind, succ) = (p(0), p(1), p(2), p(3), p(4), p(5), p(6), p(7), p(8));
+    let tracker = TransactionTrackerSubstate::V1(TransactionTrackerSubstateV1 {
+        start_epoch: se,
+        start_partition: sp as u8,
+        partition_range_start_inclusive: lo as u8,
+        partition_range_end_inclusive: hi as u8,
+        epochs_per_partition: epp,
+    });
+    let pk = SpreadPrefixKeyMapper::to_db_partition_key(TRANSACTION_TRACKER.as_node_id(), MAIN_BASE_PARTITION);
+    let sk = SpreadPrefixKeyMapper::to_db_sort_key(&TransactionTrackerField::TransactionTracker.into());
+    let db = Db(vec![(pk, sk, scrypto_encode(&FieldSubstate::new_unlocked_field(tracker)).unwrap())]);
+    let mut track = Track::new(&db);
+    let h = hash(b"verif");
+    let n = if kind == 0 {
+        IntentHashNullification::TransactionIntent { intent_hash: TransactionIntentHash(h), expiry_epoch: Epoch::of(e) }
+    } else {
+        IntentHashNullification::Subintent { intent_hash: SubintentHash(h), expiry_epoch: Epoch::of(e) }
+    };
+    let ret = radix_engine::system::system_callback::verif::update_transaction_tracker(&mut track, Epoch::of(nxt), vec![n], succ == 1);
+    let tracked = match track.finalize() {
+        Ok((t, _)) => t,
+        Err(_) => return "err finalize".to_string(),
+    };
+    let (_new_nodes, su) = tracked.to_state_updates();
+    let (mut records, mut rec_part, mut status, mut deletes, mut del_part, mut tw, mut nse, mut nsp) =
+        (0u64, 0u64, 0u64, 0u64, 0u64, 0u64, -1i128, -1i128);
+    let status_of = |bytes: &Vec<u8>| -> u64 {
+        match scrypto_decode::<KeyValueEntrySubstate<TransactionStatus>>(bytes).unwrap() {
+            KeyValueEntrySubstate::V1(v1) => match v1.value {
+                Some(TransactionStatus::V1(TransactionStatusV1::CommittedSuccess)) => 0,
+                Some(TransactionStatus::V1(TransactionStatusV1::CommittedFailure)) => 1,
+                Some(TransactionStatus::V1(TransactionStatusV1::Cancelled)) => 2,
+                None => 9,
+            },
+        }
+    };
+    for (node_id, nu) in su.by_node.iter() {
+        if node_id != TRANSACTION_TRACKER.as_node_id() {
+            return "err foreign node".to_string();
+        }
+        let NodeStateUpdates::Delta { by_partition } = nu;
+        for (pn, pu) in by_partition.iter() {
+            match pu {
+                PartitionStateUpdates::Delta { by_substate } => {
+                    for (key, upd) in by_substate.iter() {
+                        let DatabaseUpdate::Set(bytes) = upd else { return "err delete of a substate".to_string() };
+                        if *pn == MAIN_BASE_PARTITION {
+                            let t = scrypto_decode::<FieldSubstate<TransactionTrackerSubstate>>(bytes).unwrap().into_payload().into_v1();
+                            tw += 1;
+                            nse = t.start_epoch as i128;
+                            nsp = t.start_partition as i128;
+                            let _ = key;
+                        } else {
+                            records += 1;
+                            rec_part = pn.0 as u64;
+                            status = status_of(bytes);
+                        }
+                    }
+                }
+                PartitionStateUpdates::Batch(BatchPartitionStateUpdate::Reset { new_substate_values }) => {
+                    deletes += 1;
+                    del_part = pn.0 as u64;
+                    for (_key, bytes) in new_substate_values.iter() {
+                        records += 1;
+                        rec_part = pn.0 as u64;
+                        status = status_of(bytes);
+                    }
+                }
+            }
+        }
+    }
+    format!("ok {} {} {} {} {} {} {} {} {}", records, rec_part, status, deletes, del_part, tw, nse, nsp, ret.len())
+}
+
 /// `locks_run` script: tokens separated by spaces, executed on a fresh SubstateLocks<()>:
 ///   L <node> <part> <key> <ro>   lock            -> prints `h<id>` or `none`
 ///   U <handle>                   unlock          -> prints `ok`
@@ -1715,6 +1823,7 @@ fn run(a: &[&str]) -> String {
         }
         "auth_run" => auth_run(&a[1..]),
         "nf_vault_lock" => nf_vault_lock(&a[1..]),
+        "tracker_update" => tracker_update(&a[1..]),
         "next_round_run" => next_round_run(&a[1..]),
         "pool2_run" => pool2_run(&a[1..]),
         "pool1_contribute" => pool1_contribute(&a[1..]),
